@@ -831,3 +831,130 @@ def r07_9(ctx):
                 "offset) without first establishing offset + 1 <= len: a frame ending right after its addressing fields panics", body=b, bb=S[0], path=bad[0][1])
     else:
         ctx.ok(('ieee802154::check_len', 'security-control-byte'), sample=dict(guard='offset + 1 <= len before security_header_len()'))
+
+
+@rule('R07.10', ['C07', 'C03'], floor=1, clause='inside the wire parsers a nested view over received bytes is read only after new_checked / check_len, or behind an explicit length test that covers every accessor used on it')
+def r07_10(ctx):
+    F = ctx.F
+    from .c06 import _cover
+    views = wire_views(F)
+    n = 0
+    for k, b in sorted(F.bodies.items()):
+        if not (b.file or '').startswith('src/wire/'):
+            continue
+        last = k.rsplit('::', 1)[-1]
+        if not (last.startswith('parse') or '::parse::' in k):
+            continue
+        for x in b.calls():
+            nm = b.callee_name(x[1]) or ''
+            if not (nm.endswith('::new_unchecked') and nm.startswith('wire::')):
+                continue
+            vadt = next((v for v in views if nm.startswith(v + '::')), None)
+            readers = []
+            for y in b.calls():
+                if y[0] == x[0]:
+                    continue
+                un = b.callee_name(y[1]) or ''
+                if vadt is None or not un.startswith(vadt + '::'):
+                    continue
+                if not y[2] or not is_place_op(y[2][0]):
+                    continue
+                o = F.origin.operand(b, y[2][0], y[0], len(b.blocks[y[0]]['s']))
+                if ('C:' + nm) in leafs(o) and not un.rsplit('::', 1)[-1].startswith(('set_', 'check_len', 'fill_', 'emit')):
+                    readers.append((y[0], un))
+            if not readers:
+                continue
+            n += 1
+            need = 0
+            symbolic = False
+            for _, un in readers:
+                mb = F.bodies.get(un)
+                c = _cover(F, mb, vadt) if mb is not None else None
+                if c is None:
+                    symbolic = True
+                elif c:
+                    need = max(need, max(c) + 1)
+            src = F.origin.operand(b, x[2][0], x[0], len(b.blocks[x[0]]['s']))
+            cs = _canon(simplify(src))
+
+            def enough(f, cs=cs, need=need):
+                if f[0] != 'rel':
+                    return False
+                for a, c_, ops in ((f[2], f[3], ('Ge', 'Gt')), (f[3], f[2], ('Le', 'Lt'))):
+                    m = _canon(simplify(a))
+                    islen = (m[0] == 'len' and _same_slice(m[1], cs)) or (m[0] == 'call' and m[1].endswith('::len') and _same_slice(m[2][0], cs))
+                    if islen and f[1] in ops:
+                        kk = const_of(c_)
+                        if kk is not None and kk + (1 if f[1] in ('Gt', 'Lt') else 0) >= need:
+                            return True
+                return False
+            checked = lambda f, nm=nm: f[0] == 'is' and f[2] in ('Continue', 'Ok') and ('C:' + nm) in leafs(f[1]) and \
+                any(l.endswith('::check_len') for l in leafs(f[1]) if l.startswith('C:'))
+            sites = [r[0] for r in readers]
+            bad = unguarded(F, b, sites, p_any(enough, checked) if not symbolic else checked)
+            short = k.split('wire::')[-1]
+            if bad:
+                ctx.bad(f"{short}|unchecked-nested-view|{nm.split('wire::')[-1].split('::')[0]}", f"{k} reads a {nm.split('wire::')[-1].split('::new_')[0]} view built with "
+                        f"new_unchecked over received bytes without a length check covering {need} octets: a truncated embedded packet panics the parser",
+                        body=b, bb=bad[0][0], path=bad[0][1])
+            else:
+                ctx.ok((short, nm), sample=dict(parser=short, nested=nm.split('wire::')[-1], guard=f"len >= {need}"))
+    ctx.need(n >= 1, "nested unchecked views in wire parsers")
+
+
+@rule('R03.7', ['C03', 'C07', 'C20'], floor=1, clause='an element index computed from received bytes (the 6LoWPAN context identifier) is used only behind `index < table.len()`')
+def r03_7(ctx):
+    """Sites: bounds-checked element accesses `t[i]` with a non-constant, non-iterator index in src/wire code that is
+    not an accessor of a checked view (those are R07.1's).  Obligation: a dominating edge carries i < len(t)."""
+    F = ctx.F
+    views = set(wire_views(F))
+    n = 0
+    for k, b in sorted(F.bodies.items()):
+        if not (b.file or '').startswith('src/wire/') or '::test' in k:
+            continue
+        root = b.meta.get('impl_self') or (F.bodies.get(b.meta.get('root') or '', b).meta.get('impl_self') if b.meta.get('root') else None)
+        if root in views:
+            continue
+        for bi, bl in enumerate(b.blocks):
+            if bl['cl']:
+                continue
+            t = bl['t']
+            if not (t[0] == 'assert' and t[3].get('k') == 'bounds'):
+                continue
+            si = len(bl['s'])
+            idx = simplify(F.origin.operand(b, t[3]['index'], bi, si))
+            if const_of(idx) is not None or any(l.endswith('::next') for l in leafs(idx) if l.startswith('C:')):
+                continue
+            ln = simplify(F.origin.operand(b, t[3]['len'], bi, si))
+            if const_of(ln) is not None:
+                continue          # fixed-size arrays indexed by masked values: not input-length dependent
+            ci, cl = _canon(idx), _canon(ln)
+            # `len - 1` on a slice known to be non-empty is a different idiom (not an input-derived index)
+            l_, c_ = lin(ci)
+            if c_ == -1 and len(l_) == 1 and list(l_.keys())[0] == cl:
+                continue
+            n += 1
+
+            def lbase(m):
+                if m[0] == 'len':
+                    return m[1]
+                if m[0] == 'call' and m[1].endswith('::len') and len(m[2]) == 1:
+                    return m[2][0]
+                return None
+
+            def pred(f, ci=ci, cl=cl):
+                if f[0] != 'rel':
+                    return False
+                a, c = _canon(simplify(f[2])), _canon(simplify(f[3]))
+
+                def same_len(x):
+                    return x == cl or (lbase(x) is not None and lbase(cl) is not None and _same_slice(lbase(x), lbase(cl)))
+                return (f[1] == 'Lt' and a == ci and same_len(c)) or (f[1] == 'Gt' and c == ci and same_len(a))
+            bad = unguarded(F, b, [bi], pred)
+            short = k.split('wire::')[-1]
+            if bad:
+                ctx.bad(f"{short}|unguarded-index", f"{k}: `{show(ln)[:30]}[{show(idx)[:30]}]` with an index taken from received data has no dominating "
+                        "`index < len` test (an out-of-range identifier panics the interface)", body=b, bb=bi, line=t[5], path=bad[0][1])
+            else:
+                ctx.ok((short, 'index<len'), sample=dict(fn=short, guard='index < table.len()'))
+    ctx.need(n >= 1, "input-derived element indices in wire code")
